@@ -6,7 +6,7 @@ from . import conn
 from .c15 import tolerated_set
 from .c16 import token_roundtrip
 from .conn import leaves, self_field, find_outcome, ret_kind
-from .util import as_sum, ok_payload_source, strip_map_err, const_of, is_call, last_seg, look, norm, option_is_some, transforms, truth
+from .util import propagated_error, as_sum, ok_payload_source, strip_map_err, const_of, is_call, last_seg, look, norm, option_is_some, transforms, truth, payload_of
 
 EXPLANATION = (
     "Static decision of the grammar's structural clauses: RequestLine::try_from evaluates split, "
@@ -72,10 +72,10 @@ def order(ctx):
             if good:
                 for field, callee, idx in (("method", ORDER[1], "0"), ("uri", ORDER[2], "1"), ("http_version", ORDER[3], "2")):
                     v = r[3][names.index(field)]
-                    good = good and v[0] == "payload" and is_call(v[1], callee)
+                    good = good and payload_of(v) is not None and is_call(payload_of(v), callee)
                     if good:
-                        a = look(v[1][2][0])
-                        good = a[0] == "field" and a[3] == idx and a[1][0] == "payload" and is_call(a[1][1], ORDER[0]) and look(a[1][1][2][0]) == ("arg", 1)
+                        a = look(payload_of(v)[2][0])
+                        good = a[0] == "field" and a[3] == idx and payload_of(a[1]) is not None and is_call(payload_of(a[1]), ORDER[0]) and look(payload_of(a[1])[2][0]) == ("arg", 1)
             ctx.ob("R02.1", "order|accept", good, "accepting path: split, Method(part 0), Uri(part 1), Version(part 2), each result stored in its own field", fn.loc(lf.bb))
         elif rk[0] == "prop":
             # the error returned is that of the last call made
@@ -96,8 +96,8 @@ def parts(ctx):
         return is_call(t, "request::find") and conn.const_bytes(t[2][1]) == b" " and hay_pred(look(t[2][0]))
 
     def some_payload(t, pred):
-        t = look(t)
-        return t[0] == "field" and t[1][0] == "downcast" and t[1][2] == "Some" and pred(t[1][1])
+        src = payload_of(t)
+        return src is not None and pred(src)
 
     def plus1(t, pred):
         sm = as_sum(t)
@@ -142,10 +142,14 @@ def parts(ctx):
                 ctx.ob("R02.1", "parts|version", gv, "version = rest[second SP + 1..] (everything after the second SP)", fn.loc(lf.bb))
             else:
                 ctx.fail("R02.1", "parts|shape", "parse_request_line does not return a 3-tuple literal", fn.loc(lf.bb))
-        elif rk[0] == "Err":
-            e = look(rk[1])
-            none1 = any(t[0] == "discr" and first_sp(t[1]) and option_is_some(c) is False for (t, c, _b) in lf.conds)
-            none2 = any(t[0] == "discr" and second_sp(t[1]) and option_is_some(c) is False for (t, c, _b) in lf.conds)
+        elif rk[0] == "Err" or (rk[0] == "prop" and propagated_error(rk[1])[1] is not None and is_call(propagated_error(rk[1])[0], "request::find")):
+            if rk[0] == "Err":
+                e = look(rk[1])
+                none1 = any(t[0] == "discr" and first_sp(t[1]) and option_is_some(c) is False for (t, c, _b) in lf.conds)
+                none2 = any(t[0] == "discr" and second_sp(t[1]) and option_is_some(c) is False for (t, c, _b) in lf.conds)
+            else:
+                src, e = propagated_error(rk[1])
+                none1, none2 = first_sp(src), second_sp(src)
             ctx.ob("R02.1", "parts|malformed|%s" % ("no-first-sp" if none1 else "no-second-sp" if none2 else "other"), (none1 or none2) and e[0] == "agg" and e[2] == "InvalidRequest", "a line without two SP is InvalidRequest (malformed shape)", fn.loc(lf.bb))
     ctx.ob("R02.1", "parts|one-accepting-path", n_ok == 1, "%d accepting path(s) in parse_request_line" % n_ok, fn.loc(0))
 
@@ -267,7 +271,7 @@ def lines(ctx):
 
     def find_payload(t):
         t = look(t)
-        if t[0] == "field" and t[1][0] == "downcast" and t[1][2] == "Some" and conn.is_find_crlf(t[1][1]):
+        if payload_of(t) is not None and conn.is_find_crlf(payload_of(t)):
             hay = buf_range(look(t[1][1])[2][0])
             return hay is not None and is_start(hay[0]) and look(hay[1]) == ("arg", 3)
         return False
@@ -330,7 +334,7 @@ def lines(ctx):
             if ok:
                 rq = v[3][0][3]
                 rl = rq[names.index("request_line")]
-                ok = rl[0] == "payload" and is_call(rl[1], "map_err") and is_call(look(rl[1][2][0]), "request::RequestLine::try_from") and is_call(rq[names.index("headers")], "default") and rq[names.index("body")][0] == "agg" and rq[names.index("body")][2] == "None"
+                ok = payload_of(rl) is not None and is_call(payload_of(rl), "request::RequestLine::try_from") and is_call(rq[names.index("headers")], "default") and rq[names.index("body")][0] == "agg" and rq[names.index("body")][2] == "None"
             ctx.ob("R02.5", "pending-request|fresh", ok, "a new pending request holds the parsed request line, default headers, no body", fn.loc(e[1]))
 
 
@@ -350,5 +354,5 @@ def content_length_u32(ctx, rule):
         for e in lf.events:
             if e[0] == "assign" and e[3] == "(*_1).content_length":
                 v = look(e[4])
-                ok = v[0] == "field" and v[1][0] == "downcast" and v[1][2] == "Ok" and is_call(look(v[1][1]), "parse")
+                ok = payload_of(v) is not None and is_call(payload_of(v), "parse")
                 ctx.ob(rule, "stored-unchanged", ok, "the parsed value is stored without conversion: %s" % term_s(v)[:90], fn.loc(e[1]))
